@@ -370,7 +370,67 @@ func initialAndChunking(c *Ctx, rule string) {
 				}
 			}
 		}
-		c.Check(okAdd == 1 && nCalls == 1 && inLoop && globals == 0, rule, "EachMessage: delta once, step per byte, no other state", p.Pos(em.Pos()), "one clock update, one step call inside a counted range loop over the chunk, the step touches no package-level state", fmt.Sprintf("clock updates=%d step calls=%d inside counted loop=%v package-level state touched=%d", okAdd, nCalls, inLoop, globals))
+		// EachMessage itself is nothing but: clock update; for each byte: step. Any other effect or any branch that is not
+		// the loop condition (a "fast path") would bypass the simulated step function.
+		extra := ""
+		nIf := 0
+		for _, b := range em.Blocks {
+			for _, in := range b.Instrs {
+				switch x := in.(type) {
+				case *ssa.If:
+					nIf++
+				case *ssa.Store:
+					if _, local := x.Addr.(*ssa.Alloc); !local {
+						if fv := fieldVar(x.Addr); fv == nil || fv.Name() != "ts_ms" {
+							extra = "EachMessage stores to decoder state outside the step function"
+						}
+					}
+				case *ssa.Go, *ssa.Defer, *ssa.MakeClosure, *ssa.Send:
+					extra = "EachMessage starts goroutines / closures"
+				case *ssa.Call:
+					cal := x.Common().StaticCallee()
+					if _, isB := x.Common().Value.(*ssa.Builtin); isB {
+						continue
+					}
+					if cal == step {
+						continue
+					}
+					if cal != nil && InModule(cal) {
+						// allowed: a helper whose only effect is the clock update
+						onlyClock := true
+						for _, g := range p.Reachable(cal) {
+							for _, gb := range g.Blocks {
+								for _, gi := range gb.Instrs {
+									switch y := gi.(type) {
+									case *ssa.Store:
+										if _, local := y.Addr.(*ssa.Alloc); !local {
+											if fv := fieldVar(y.Addr); fv == nil || fv.Name() != "ts_ms" {
+												onlyClock = false
+											}
+										}
+									case *ssa.Call:
+										if _, isB := y.Common().Value.(*ssa.Builtin); !isB && y.Common().StaticCallee() == nil {
+											onlyClock = false
+										}
+									}
+								}
+							}
+						}
+						if onlyClock {
+							continue
+						}
+					}
+					extra = "EachMessage calls something other than the clock update and the step function (e.g. delivers a message on a fast path): " + callName(x)
+				}
+			}
+		}
+		if nIf > len(naturalLoops(em)) {
+			extra = fmt.Sprintf("EachMessage has %d branches but only %d loops: a special case outside the byte-wise step breaks chunking independence", nIf, len(naturalLoops(em)))
+		}
+		if extra != "" {
+			okAdd = -2
+		}
+		c.Check(okAdd == 1 && nCalls == 1 && inLoop && globals == 0, rule, "EachMessage: delta once, step per byte, no other state", p.Pos(em.Pos()), "one clock update, one step call inside a counted range loop over the chunk, the step touches no package-level state", fmt.Sprintf("clock updates=%d step calls=%d inside counted loop=%v package-level state touched=%d %s", okAdd, nCalls, inLoop, globals, extra))
 	}
 }
 
